@@ -1355,6 +1355,8 @@ where
     /// Dumps indexes on old blobs. This method is slow, so it is better to run it in background
     pub(crate) async fn try_dump_old_blob_indexes(&self) {
         Safe::try_dump_old_blob_indexes(&self.safe, self.get_dump_sem(), Duration::from_millis(200)).await;
+        #[cfg(pearl_verif)]
+        crate::verif::on_task_end("index_dump_task");
     }
 
     pub(crate) fn should_try_fsync(&self, dirty_bytes: u64) -> bool {
